@@ -46,10 +46,18 @@ def build_driver():
 def tree_digest(repo):
     """sha256 over every file that can influence the build (tracked + untracked, not ignored) + driver binary."""
     h = hashlib.sha256()
-    r = subprocess.run(["git", "-C", repo, "ls-files", "-co", "--exclude-standard", "-z"], capture_output=True)
-    if r.returncode != 0:
-        raise Broken("git ls-files failed in " + repo)
-    files = sorted(f for f in r.stdout.decode().split("\0") if f)
+    if os.path.exists(os.path.join(repo, ".git")):
+        r = subprocess.run(["git", "-C", repo, "ls-files", "-co", "--exclude-standard", "-z"], capture_output=True)
+        if r.returncode != 0:
+            raise Broken("git ls-files failed in " + repo)
+        files = sorted(f for f in r.stdout.decode().split("\0") if f)
+    else:
+        files = []
+        for root, dirs, fs in os.walk(repo):
+            dirs[:] = [d for d in dirs if d not in ("target", ".git")]
+            for f in fs:
+                files.append(os.path.relpath(os.path.join(root, f), repo))
+        files.sort()
     keep_ext = (".rs", ".toml", ".lock", ".sql", ".so", ".dylib", ".json", ".md", ".proto", ".txt")
     for f in files:
         if not f.endswith(keep_ext):
@@ -214,3 +222,22 @@ def latest_facts_dir():
     ds = [d for d in glob.glob(os.path.join(CACHE, "facts", "*")) if os.path.exists(os.path.join(d, "DONE"))
           and not os.path.basename(d).startswith("fixtures-")]
     return sorted(ds, key=os.path.getmtime)[-1]
+
+
+
+SCRATCH = os.environ.get("CORROLINT_SCRATCH", "/tmp/corrolint-scratch")
+
+
+def scratch_copy(repo=REPO):
+    """fresh copy of the repository's working tree (without target/.git) outside /repo and /verif"""
+    if os.path.exists(SCRATCH):
+        shutil.rmtree(SCRATCH)
+    os.makedirs(SCRATCH)
+    r = subprocess.run(["rsync", "-a", "--exclude", "target", "--exclude", ".git", repo.rstrip("/") + "/", SCRATCH + "/"], capture_output=True, text=True)
+    if r.returncode != 0:
+        raise Broken("rsync to scratch failed: " + r.stderr[-500:])
+    return SCRATCH
+
+
+def remove_scratch():
+    shutil.rmtree(SCRATCH, ignore_errors=True)
